@@ -459,6 +459,30 @@ func c13SetNodes(m *c13Mon, r *fw.Rand) {
 
 func c13AddIndividual(m *c13Mon, r *fw.Rand) {
 	ptr := m.freshPtr("I")
+	// now and then a record is added under a pointer that is taken (files with
+	// a repeated xref exist) and one of the two is removed again: the pointer
+	// leads to the one that is left, as in a fresh decode of the text
+	if inds := m.doc.Individuals(); len(inds) > 0 && r.Chance(1, 4) {
+		old := inds[r.Intn(len(inds))]
+		dropOld := r.Bool()
+		m.edit("AddIndividual(taken pointer)+DeleteNode(one of the two)", func() string {
+			m.doc.Families()
+			_ = old.Spouses()
+			twin := m.doc.AddIndividual(old.Pointer(), gedcom.NewNode(gedcom.TagName, "Second /Record/", ""))
+			gone, left := gedcom.Node(twin), gedcom.Node(old)
+			if dropOld {
+				gone, left = old, twin
+			}
+			if !m.doc.DeleteNode(gone) {
+				return "Document.DeleteNode of a root returned false"
+			}
+			if got := m.doc.NodeByPointer(old.Pointer()); got != left {
+				return fmt.Sprintf("stale: two records shared the pointer %s and one was deleted: NodeByPointer returns %s, not the record that is left", old.Pointer(), gen.Describe(got))
+			}
+			return ""
+		})
+		return
+	}
 	m.edit("AddIndividual", func() string {
 		var kids gedcom.Nodes
 		if r.Bool() {
